@@ -13,4 +13,5 @@ def run(ck):
                         'locks other than the live map, the history list, the rule list and the per-connection RwLock', 'listeners other than those using h11c_handshake (HTTP, QUIC)']
     locks.spec_api_handlers(ck)
     locks.spec_http_handshake(ck)
+    locks.spec_dispatcher_locks(ck)
     ck.post_filter = lambda o: o.label.startswith('C14/') or o.status in ('undecided', 'vacuous', 'inconclusive')
